@@ -978,7 +978,7 @@ type Explorer struct {
 	// CaseCost is the deviation cost of taking a ready select arm other than the first one
 	// in source order (0 = free, as Go's random choice suggests; 1 = counted against Bound).
 	CaseCost int
-	visited  map[[2]uint64]bool
+	visited  map[uint64]int
 	Pruned   int
 	// LevelOrder explores the schedule tree breadth-first: first the canonical schedule, then
 	// every schedule with exactly one departure from it (default choices afterwards), then
@@ -1092,14 +1092,16 @@ func (e *Explorer) explore(prefix []int) {
 		p := o.Points[i]
 		if e.Prune && i >= len(prefix) && i >= o.Window {
 			if e.visited == nil {
-				e.visited = map[[2]uint64]bool{}
+				e.visited = map[uint64]int{}
 			}
-			k := [2]uint64{o.Hashes[i], uint64(e.Bound - pre)}
-			if e.visited[k] {
+			// dominance: a state already expanded with at least as much remaining budget has
+			// had every continuation explored that is allowed now
+			rem := e.Bound - pre
+			if had, ok := e.visited[o.Hashes[i]]; ok && had >= rem {
 				e.Pruned++
-				break // this state was expanded before with the same remaining budget
+				break
 			}
-			e.visited[k] = true
+			e.visited[o.Hashes[i]] = rem
 		}
 		if i >= len(prefix) && i >= o.Window {
 			for alt := 1; alt < p.N; alt++ {
